@@ -254,9 +254,8 @@ func VerifFingerprint(c *Container, fnLabel func(interface{}) string, canon func
 		b.WriteString("\n providers:")
 		for _, k := range verifSortedKeys(s.providers) {
 			ps := s.providers[k]
-			if len(ps) == 0 {
-				continue
-			}
+			// an empty entry (left behind by the rollback after a cycle
+			// rejection) is state too: it is dumped, not normalised away
 			fmt.Fprintf(b, " %s=>[", verifKeyString(k))
 			for _, p := range ps {
 				b.WriteString(fp.node(p) + ",")
